@@ -265,13 +265,15 @@ static void op_sample(actor *a, int ui)
     actor *u = &G.unit[ui];
     if (!u->created || u->freed)
         return;
+    if (ALOAD(u->reviving))
+        return;
     int inc0 = u->incarnation;
     int ended_before = (u->ends == inc0);
     int started_before = (u->starts == inc0);
     ABT_thread_state st;
     int rc = ABT_thread_get_state(u->h, &st);
     CHECK_RC(rc, "ABT_thread_get_state");
-    if (u->incarnation != inc0)
+    if (u->incarnation != inc0 || ALOAD(u->reviving))
         return; /* revived meanwhile */
     if (st == ABT_THREAD_STATE_TERMINATED) {
         if (!(u->ends == inc0 || u->cancelled || u->exited))
